@@ -117,15 +117,19 @@ def get_partition_spec(tree: A) -> A:
 
   def f(x):
     if isinstance(x, (variablelib.VariableState, variablelib.Variable)):
-      if hasattr(x, 'sharding') and x.sharding:
-        if core_spmd.get_logical_axis_rules() or hasattr(x, 'sharding_rules'):
+      # look at the Variable's own metadata: attribute access on a Variable
+      # falls through to its value, and a jax.Array has a `.sharding` too.
+      metadata = x.get_metadata()
+      sharding = metadata.get('sharding', None)
+      if sharding:
+        if core_spmd.get_logical_axis_rules() or 'sharding_rules' in metadata:
           context_rules = core_spmd.get_logical_axis_rules()
-          local_rules = getattr(x, 'sharding_rules', ())
+          local_rules = metadata.get('sharding_rules', ())
           rules = core_spmd.composite_rules(context_rules, local_rules)
           return x.replace(
-              PartitionSpec(*core_spmd.from_sharding_rules(x.sharding, rules))
+              PartitionSpec(*core_spmd.from_sharding_rules(sharding, rules))
           )
-        return x.replace(PartitionSpec(*x.sharding))
+        return x.replace(PartitionSpec(*sharding))
       else:
         return x.replace(_maybe_replicate(x.value))
 
